@@ -42,8 +42,10 @@ func TestVerifStress(t *testing.T) {
 		setBufSize = []int{1, 4, 64, 32 * 1024}[rng.Intn(4)]
 		metricsOn := rng.Intn(2) == 0
 		withCb := rng.Intn(3) != 0
-		var exits sync.Map
-		var dupExit, panics atomic.Int64
+		var exits sync.Map  // value -> time of its OnExit
+		var valKey sync.Map // value -> key it was Set under
+		var dupExit, panics, stale, wrongKey, lostAccepted atomic.Int64
+		var accepted sync.Map // value -> true when its Set returned true
 		cfg := &Config[uint64, uint64]{
 			NumCounters:        []int64{2, 64, 1 << 12}[rng.Intn(3)],
 			MaxCost:            []int64{1, 50, 1000, 1 << 30}[rng.Intn(4)],
@@ -54,8 +56,11 @@ func TestVerifStress(t *testing.T) {
 		if withCb {
 			cfg.OnExit = func(v uint64) {
 				if v != 0 {
-					if _, loaded := exits.LoadOrStore(v, true); loaded {
+					if _, loaded := exits.LoadOrStore(v, time.Now()); loaded {
 						dupExit.Add(1)
+					}
+					if v%7 == 0 {
+						time.Sleep(20 * time.Microsecond) // user callbacks may be slow: widens every release window
 					}
 				}
 			}
@@ -111,13 +116,34 @@ func TestVerifStress(t *testing.T) {
 					switch {
 					case call < 30:
 						name = "Get"
-						c.Get(k)
+						t0 := time.Now()
+						if v, ok := c.Get(k); ok {
+							if kk, has := valKey.Load(v); !has || kk.(uint64) != k {
+								if wrongKey.Add(1) == 1 {
+									fmt.Printf("stress wrongkey: round %d: Get(%d) returned value %d which was Set under key %v\n", r, k, v, kk)
+								}
+							}
+							if e, has := exits.Load(v); has && e.(time.Time).Before(t0) {
+								if stale.Add(1) == 1 {
+									fmt.Printf("stress stale: round %d: Get(%d) returned value %d, passed to OnExit %v before the Get started\n",
+										r, k, v, t0.Sub(e.(time.Time)))
+								}
+							}
+						}
 					case call < 55:
 						name = "Set"
-						c.Set(k, next.Add(1), int64(lr.Intn(30)))
+						v := next.Add(1)
+						valKey.Store(v, k)
+						if c.Set(k, v, int64(lr.Intn(30))) {
+							accepted.Store(v, true)
+						}
 					case call < 65:
 						name = "SetWithTTL"
-						c.SetWithTTL(k, next.Add(1), int64(lr.Intn(30)), time.Duration(lr.Intn(3))*time.Millisecond)
+						v := next.Add(1)
+						valKey.Store(v, k)
+						if c.SetWithTTL(k, v, int64(lr.Intn(30)), time.Duration(lr.Intn(3))*time.Millisecond) {
+							accepted.Store(v, true)
+						}
 					case call < 75:
 						name = "Del"
 						c.Del(k)
@@ -166,6 +192,22 @@ func TestVerifStress(t *testing.T) {
 		}
 		close(stopWatch)
 		c.Close()
+		if withCb {
+			// every accepted value has been released exactly once by the time Close returns (no call overlaps Close)
+			accepted.Range(func(v, _ any) bool {
+				if _, ok := exits.Load(v); !ok {
+					if lostAccepted.Add(1) == 1 {
+						kk, _ := valKey.Load(v)
+						fmt.Printf("stress lost: round %d: value %v (key %v) whose Set returned true was never passed to OnExit, Close has returned\n", r, v, kk)
+					}
+				}
+				return true
+			})
+		}
+		if stale.Load() > 0 || wrongKey.Load() > 0 || lostAccepted.Load() > 0 {
+			fmt.Printf("stress counts: round %d stale=%d wrongkey=%d lost=%d\n", r, stale.Load(), wrongKey.Load(), lostAccepted.Load())
+			t.Fail()
+		}
 		if dupExit.Load() > 0 {
 			fmt.Printf("stress dupexit: round %d: %d values passed to OnExit twice\n", r, dupExit.Load())
 			t.Fail()
